@@ -91,19 +91,24 @@ def _parse_range(size: int, key: Union[int, slice]) -> Tuple[bool, int, int, int
         stop = key.stop
         step = key.step or 1
 
+        # as in list slicing, indices are clamped to [0, size] for a positive step
+        # and to [-1, size - 1] for a negative step
+        lower = -1 if step < 0 else 0
+        upper = size - 1 if step < 0 else size
+
         if start is None:
-            start = 0 if step > 0 else size - 1
+            start = upper if step < 0 else lower
         else:
             if start < 0:
                 start += size
-            start = min(max(0, start), size)
+            start = min(max(lower, start), upper)
 
         if stop is None:
-            stop = size if step > 0 else -1
+            stop = lower if step < 0 else upper
         else:
             if stop < 0:
                 stop += size
-            stop = min(max(0, stop), size)
+            stop = min(max(lower, stop), upper)
 
         return False, start, stop, step
 
